@@ -109,6 +109,7 @@ class Interp:
         self.models_hit = set()
         self.funcs_run = set()
         self.max_steps = 5_000_000
+        self.overrides = {}
         self.depth = 0
 
     # ------------------------------------------------------------------ solver
@@ -854,6 +855,9 @@ class Interp:
 
     # ------------------------------------------------------------------ run
     def run(self, fn, args):
+        ov = self.overrides.get(fn.name) if self.overrides else None
+        if ov is not None:
+            return ov(self, args)
         self.funcs_run.add(fn.name)
         self.depth += 1
         if self.depth > 200:
